@@ -138,13 +138,33 @@ class proceed:
         self.fn = fn
 
     def __enter__(self):
-        self.curr = HandlerCollection.current.get() or HandlerCollection([])
-        self.interactor, new = self.curr.proceed(self.fn)
-        self.reset = HandlerCollection.current.set(new)
+        # outer: what the caller runs with; inner: what fn's body runs with
+        self.outer = HandlerCollection.current.get()
+        curr = self.outer or HandlerCollection([])
+        self.interactor, self.inner = curr.proceed(self.fn)
+        HandlerCollection.current.set(self.inner)
+        self.suspended = False
         return self.interactor
 
+    def suspend(self):
+        """The function is a generator and is about to yield."""
+        if not self.suspended:
+            self.inner = HandlerCollection.current.get()
+            HandlerCollection.current.set(self.outer)
+            self.suspended = True
+
+    def resume(self):
+        """The generator is resumed, possibly under other overlays."""
+        if self.suspended:
+            self.outer = HandlerCollection.current.get()
+            HandlerCollection.current.set(self.inner)
+            self.suspended = False
+
     def __exit__(self, typ, exc, tb):
-        HandlerCollection.current.reset(self.reset)
+        # A generator that is closed or dropped ends while it is suspended:
+        # the caller's handlers are already in place.
+        if not self.suspended:
+            HandlerCollection.current.set(self.outer)
         self.interactor.exit()
 
 
